@@ -15,6 +15,8 @@
 //        11           empty()                                           -> bool
 //        12 s         slot[s].reset()                                   -> 0
 //        13 s         slot[s] ? slot[s]->value : -1
+//        14 n s       slot[s] ? addObject(n, slot[s]) : -1            the client adds an object it already holds
+//        15 n s ty    slot[s] ? addObject(n, slot[s], ty) : -1
 // Every predicate calls vs::user_call(id of the visited object) before testing it.
 // shared_ptr instances are vstd::shared_ptr (soh_extra.hpp): a copy is a read window on its source, the
 // destruction of a non-empty instance a write window; client-side reset / move assignment are silent.
@@ -128,6 +130,15 @@ struct SohComp {
             case 13: {
                 Ptr& s = sl[o[1] & 1];
                 return s ? s->value : -1;
+            }
+            case 14:
+            case 15: {
+                Ptr& s = sl[o[2] & 1];
+                if (!s) return -1;
+                // the argument: a copy of the client's own pointer, made through the base class (the slot is the
+                // client's private instance: no window)
+                Ptr arg(static_cast<const std::shared_ptr<Pay>&>(s));
+                return o[0] == 14 ? holder.addObject(nm(o[1]), std::move(arg)) : holder.addObject(nm(o[1]), std::move(arg), (int)o[3]);
             }
         }
         return 0;
